@@ -161,6 +161,14 @@ CONTROLS = [
         '    let (s, b) = opt(is_not("\\r\\n"))(s)?;\n    let (s, c) = opt(alt((tag("\\r\\n"), tag("\\n"))))(s)?;', 1)]),
     ('g22-block-comment-star-unguarded', 'G22', 'syn', 'block_comment:guard-mismatch', [(PARSER + 'general/comments.rs',
         'terminated(tag("*"), peek(not(tag("/")))),', 'terminated(tag("*"), peek(not(tag("*")))),', 1)]),
+    ('x20-last-byte-without-origin', 'X20', 'syn', 'valid-position-without-origin', [(PPF,
+        '        let origin = self.origins.get(&Range::new(pos, pos + 1));\n        if let Some(origin) = origin {',
+        '        if pos + 1 >= self.text.len() {\n            return None;\n        }\n        let origin = self.origins.get(&Range::new(pos, pos + 1));\n        if let Some(origin) = origin {', 1)]),
+    ('x20-probe-two-bytes', 'X20', 'syn', 'origin:probe', [(PPF, 'self.origins.get(&Range::new(pos, pos + 1));', 'self.origins.get(&Range::new(pos, pos + 2));', 1)]),
+    ('x20-translation-drops-segment-begin', 'X20', 'syn', 'origin:translation', [(PPF, 'let ret_pos = pos - origin.range.begin + origin_range.begin;', 'let ret_pos = pos + origin_range.begin;', 1)]),
+    ('t4-unwrap-node-searches-per-kind', 'T4', 'syn', 'unwrap_node:first-match', [(API,
+        '            for x in $n {\n                match x {\n                    $($crate::RefNode::$ty(x) => return Some($crate::RefNode::$ty(x)),)*\n                    _ => (),\n                }\n            }\n            None',
+        '            let mut nodes = $n.into_iter();\n            $(\n                if let Some(x) = nodes.find(|x| matches!(x, $crate::RefNode::$ty(_))) {\n                    return Some(x);\n                }\n            )*\n            None', 1)]),
     ('s1-version-stack-not-reset', 'S1', 'mir', 'not-reset:CURRENT_VERSION', [(PARSER + 'lib.rs', '    clear_directive();\n    clear_version();\n}', '    clear_directive();\n}', 1)]),
     ('s2-grammar-function-exported', 'S2', 'mir', 'source_text', [(PARSER + 'source_text/system_verilog_source_text.rs', 'pub(crate) fn source_text(s: Span)', 'pub fn source_text(s: Span)', 1)]),
     ('s3-scope-leak-on-error-path', 'S3', 'mir', 'text_macro_usage:unbalanced', [(CD,
